@@ -23,7 +23,7 @@ sys.path.insert(0, os.path.join(VERIF, 'gen'))
 import nlgen
 from nlgen import Model, Rng
 
-PROP_MIN_THEOREMS = 47
+PROP_MIN_THEOREMS = 53
 
 # every type except cones / unary-encoding marker: natively accepted in run A
 BASE_ACCEPT = ['LinConRange', 'LinConLE', 'LinConEQ', 'LinConGE',
@@ -681,6 +681,12 @@ def check_case(ck, exe, drv, stub, m, opts, stats, case_id):
                                 'only_impl': [c for c in consB if c not in rest][:8], 'only_model': [c for c in rest if c not in consB][:8]})
             continue
         # ---- regular constraints
+        if any('args' in e['data'] and isinstance(e['data']['args'], list) and len(set(e['data']['args'])) != len(e['data']['args'])
+               for e in mine):
+            # the same variable twice among the arguments (e.g. two constant-true comparisons mapped to one fixed
+            # variable): the delivered rows have their duplicate terms merged; outside the gadget model
+            stats['unmodelled'][tn + '(duplicate-args)'] = stats['unmodelled'].get(tn + '(duplicate-args)', 0) + 1
+            continue
         result = None
         tried = []
         for p in range(len(vsA), n_orig - 1, -1):
@@ -1010,7 +1016,7 @@ def run_gadgets(ck, n_cases=None, proof=True):
             if badm:
                 res['proof_ok'] = False
                 res['failing'] += ['leanchecker rejected %s' % x for x in badm]
-    exe = recsolver.build(ck)
+    exe = recsolver.build(ck, flags=('-O1',))     # same build as the end-to-end stage of checks/c01.py
     drv = Driver(ck.driver('drv_c01'))
     wd = os.path.join(BUILD, 'c01g')
     os.makedirs(wd, exist_ok=True)
